@@ -200,6 +200,19 @@ CHECKS = {
         "(validated every run against go/types), strings.NewReplacer on single-byte patterns. Domain: no NUL; bytes>=0x80 opaque (valid UTF-8 assumed). "
         "gofmt preserving literal contents is checked per case, not proved.",
    ref="DESIGN.md section 4 (C13)"),
+ "C18": dict(
+   technique="Coq proofs of reference transparency in the models (parameter schemas with $ref erased parse/format identically; an embedded allOf $ref member encodes exactly like the same members inline; every alias name of a component response denotes the same response types) + three-variant differential run (as written / every $ref inlined / every inline definition hoisted) of the real generator on shared raw requests, JSON bodies and response values",
+   text="C18_param_parse / C18_param_format: erasing $ref nodes of a parameter schema changes neither parsing nor formatting of any texts. "
+        "C18_embedded_member_encodes_like_inline: for every object schema, member position and value, the encoder model of the struct with an "
+        "embedded ($ref) member equals that of the struct with the member's properties spliced in place (same items, same comma state). "
+        "C18_alias_chain: names resolving to the same component response satisfy the same operations' response interfaces. Tie: each corpus "
+        "document is generated as written, with InlineAll and with HoistAll; the three compiled packages receive identical raw requests "
+        "(status, WriteHeader count, parsed parameters, re-encoded body JSON, response status/headers) and identical response values "
+        "(wire status/headers/canonical body) and must agree.",
+   note="The generator's own reference resolution (specification.Ref, component maps, UsedIn) is exercised by the run, not modelled. The "
+        "embedded-member theorem is stated for in-place splicing; the generator additionally orders merged inline properties by name, which "
+        "permutes object members (JSON equality is up to member order). Decoding equivalence is covered on encoder outputs via C06.",
+   ref="DESIGN.md section 4 (C18)"),
  "C19": dict(
    technique="Coq proof (induction over invocation histories) + exhaustive differential check of the model against the real generator",
    text="Theorems C19_last_wins(_spec), C19_stale_gone, C19_wanted_rewritten, C19_foreign_untouched, C19_idempotent are proved in Coq for "
